@@ -23,6 +23,7 @@ structure H where
   got : Nat
   lost : List Nat
   failAt : Nat
+  dialFail : Nat
   cut : Option Nat
   qs : Array Q
 
@@ -121,17 +122,22 @@ def outcome (sync : Bool) (h : H) : List String :=
       else if partialIn s i && s.dropped then s!"R {q.rid} bad=truncated cb=x"
       else s!"R {q.rid} none cb=x"
   | "nbc" =>
-    let s := serve sync h.sched qs
+    -- the first `dialFail` Do calls fail to dial (no connection, `closeWithErrorWithoutLock`); the server
+    -- sees the history from the first request that got a connection
+    let k := min h.dialFail qs.length
+    let s := serve sync h.sched (qs.drop k)
     let m := answeredCount s
-    -- the client: n pipelined Do, the responses its parser delivered (environment input `got`, at most
-    -- what the server sent), then the close (server's or the harness's ClientConn.Close)
+    -- the client: the Do calls in order, the responses its parser delivered (environment input `got`, at
+    -- most what the server sent), then the close (server's or the harness's ClientConn.Close)
     let got := min h.got m
     let ops : List ClientFifo.Op :=
-      qs.map (fun _ => ClientFifo.Op.do_ true true) ++ (List.replicate got (ClientFifo.Op.onResponse 0 false)) ++ [.closeAll]
+      List.replicate k (ClientFifo.Op.do_ false true) ++
+      List.replicate (qs.length - k) (ClientFifo.Op.do_ true true) ++
+      (List.replicate got (ClientFifo.Op.onResponse 0 false)) ++ [.closeAll]
     let c := ClientFifo.run {} ops
     qs.mapIdx fun i q =>
       let cnt := ClientFifo.count c i
-      if c.calls.contains (i, ClientFifo.Out.resp (some i)) && answeredIn s i then
+      if c.calls.contains (i, ClientFifo.Out.resp (some i)) && i ≥ k && answeredIn s (i - k) then
         answeredLine h.cid q "x" (toString cnt)
       else s!"R {q.rid} none cb={cnt}"
   | "nbx" =>
@@ -154,7 +160,10 @@ def outcome (sync : Bool) (h : H) : List String :=
       else s!"R {q.rid} none cb={cnt}"
   | "std" | "nbcli" =>
     let cb := if h.kind == "nbcli" then "1" else "x"
-    (splitAtClose qs).flatMap fun seg =>
+    -- pool client with failing dials: one exchange at a time, the first `dialFail` get the dial error
+    let k := min h.dialFail qs.length
+    ((qs.take k).map fun q => s!"R {q.rid} none cb={cb}") ++
+    (splitAtClose (qs.drop k)).flatMap fun seg =>
       let s := serve sync h.sched seg
       seg.mapIdx fun i q =>
         -- pool client: one exchange per Do; a callback that got an error is an environment input (`lost=`)
@@ -219,8 +228,9 @@ partial def loop (h : IO.FS.Stream) (s : DS) : IO Unit := do
         let lost := (((Drv.field ws "lost").getD "").splitOn ",").filterMap String.toNat?
         let failAt := ((Drv.field ws "fail").bind String.toNat?).getD 0
         let cut := (Drv.field ws "cut").bind String.toNat?
+        let dialFail := ((Drv.field ws "dialfail").bind String.toNat?).getD 0
         IO.println "ok"
-        loop h { s with cur := some { cid, kind, sched, got, lost, failAt, cut, qs := #[] } }
+        loop h { s with cur := some { cid, kind, sched, got, lost, failAt, dialFail, cut, qs := #[] } }
       else
         IO.println "bad-op"
         loop h s
